@@ -192,11 +192,27 @@ def ensure_harness(cfg, timeout=2400):
     return harness_path(cfg), out
 
 
+MEM_LIMIT = 6 * 1024 ** 3      # address-space cap per child: a runaway case must not take the sandbox down
+
+
+def _limits():
+    import resource
+    try:
+        resource.setrlimit(resource.RLIMIT_STACK, (resource.RLIM_INFINITY, resource.RLIM_INFINITY))
+    except (ValueError, OSError):
+        pass
+    try:
+        resource.setrlimit(resource.RLIMIT_AS, (MEM_LIMIT, MEM_LIMIT))
+    except (ValueError, OSError):
+        pass
+
+
 def _run_shard(args):
     exe, lines = args
     if not lines:
         return ''
-    p = subprocess.run([exe], input='\n'.join(lines) + '\n', stdout=subprocess.PIPE, stderr=subprocess.PIPE, text=True, env=ENV)
+    p = subprocess.run([exe], input='\n'.join(lines) + '\n', stdout=subprocess.PIPE, stderr=subprocess.PIPE, text=True, env=ENV,
+                       preexec_fn=_limits, timeout=1500)
     if p.returncode != 0:
         return p.stdout + '\n!\tprocess-died rc=%d %s\n' % (p.returncode, p.stderr[-300:].replace('\n', ' '))
     return p.stdout
